@@ -65,6 +65,7 @@ func init() {
 					"C52-M1:sortedInPlace/sort.Slice(pts)",
 					"C52-M1:dedupInPlace/append to shortened re-slice of e.Eval().(mut.Line).Points",
 					"C52-M1:copyOver/copy into e.Eval().(mut.Line).Points",
+					"C52-M1:editSwappedAny/store l.Points[].SRID",
 				},
 				func(fc *Ctx) {
 					runC52Mut(fc, c52MutCfg{typesRel: "testdata/c52/mut", iface: "GeometryValue", minTypes: 4})
